@@ -33,7 +33,7 @@
 EXTENDS Integers, Sequences, FiniteSets, TLC, Json
 
 CONSTANTS MaxTx,      \* behaviour length
-          Alphabet,   \* "full" (every class combination) | "seq" (reduced alphabet for sequences)
+          Alphabet,   \* "full" (every class combination) | "seq" (reduced alphabet for sequences) | "sig" (signature part)
           Pool0,      \* initial block gas pool
           GasMode,    \* "all" (M: every representative gas outcome) | "one" (G: one outcome per class, no duplicates)
           Modes,      \* subset of {"process", "miner"}
@@ -47,9 +47,10 @@ VARIABLES nonce, bal,    \* per sender
           mode,          \* how this block calls ApplyTransaction
           dead,          \* process mode: an error ended the block
           last,          \* property layer: the last step (tx, outcome, observables before)
-          hist
+          hist,
+          sig            \* signature part: the transaction object under resolution (its sender cache, the answers so far)
 
-vars == <<nonce, bal, pool, gu, gr, mode, dead, last, hist>>
+vars == <<nonce, bal, pool, gu, gr, mode, dead, last, hist, sig>>
 
 Senders == {1, 2}
 Bal0 == <<5000000, 60000>>     \* a1 rich, a2 poor
@@ -85,7 +86,7 @@ SeqCls == { C(1, "eq", "ample", "some", "acct", "none", 2),
             C(1, "eq", "below", "zero", "acct", "data", 1),
             C(1, "eq", "exact", "over1", "acct", "none", 1) }
 
-Cls == IF Alphabet = "full" THEN FullCls ELSE SeqCls
+Cls == IF Alphabet = "full" THEN FullCls ELSE IF Alphabet = "sig" THEN {} ELSE SeqCls
 
 \* ---------------------------------------------------------------- concretisation (the driver uses the same table)
 \* data sizes of the model's payloads (non-zero, zero bytes); the real payload sizes are logged by the driver
@@ -117,10 +118,50 @@ Conc(c) ==
    IN [s |-> s, nonce |-> n, price |-> c.price, limit |-> L, value |-> v, to |-> to, pay |-> c.tp[2], intr |-> I,
        mv |-> IF to = "staking" THEN StakeValue(c.tp[2]) ELSE v]
 
+\* ---------------------------------------------------------------- signature part
+\* A signature binds (key, the six fields, network id).  Recover yields the key only for exactly what was signed, with
+\* the canonical (low-s) encoding; anything else yields another address ("other") or an error.
+Fields == {"nonce", "price", "limit", "to", "value", "data"}
+Mutations == {"none", "nonce", "price", "limit", "to", "value", "data", "data_trunc", "netid_v", "netid_signer", "netid_replay",
+              "highs", "highs_flipv", "flipv", "unprotected", "r"}
+Touches(m) == CASE m \in Fields -> {m} [] m = "data_trunc" -> {"data"} [] m \in {"netid_v", "netid_signer", "unprotected"} -> {"net"}
+                [] m = "netid_replay" -> {"net", "hash"} [] m \in {"highs", "highs_flipv"} -> {"s"} [] m = "flipv" -> {"v"} [] m = "r" -> {"r"} [] OTHER -> {}
+Recover(m) == IF Touches(m) = {} THEN "same" ELSE IF Touches(m) \subseteq {"net", "s"} THEN "err" ELSE "other"
+SenderAuthenticModel == \A m \in Mutations : (m = "none") <=> (Recover(m) = "same")
+ASSUME SenderAuthenticModel
+SigCls == { C(1, "eq", "ample", v, tp[1], tp[2], p) : v \in {"zero", "some"}, tp \in ToPay, p \in Prices }
+
+\* The sender CACHE inside the transaction object (types.Sender, transaction_signing.go:65): one decoded transaction
+\* object is resolved several times, under the signer of this network ("home") and under a signer for another network
+\* id ("foreign").  As coded: a cached (signer, address) pair answers when the cached signer Equals the asking one;
+\* otherwise the signer derives the sender and a successful derivation is stored.  `sig` is the object under resolution.
+Signers == {"home", "foreign"}
+SeqMutations == Mutations \ {"netid_signer"}            \* (that one IS "ask the foreign signer")
+\* what deriving the sender from scratch yields.  Foreign signer: the V of every case names the home network
+\* (ErrInvalidNetworkId / ErrNotProtected), except netid_v, whose V names the foreign network while the signed hash does not
+RecoverUnder(m, sg) == IF sg = "home" THEN Recover(m) ELSE IF m = "netid_v" THEN "other" ELSE "err"
+SigOff == [on |-> FALSE, cls |-> C(1, "eq", "ample", "zero", "acct", "none", 1), mut |-> "none", cache |-> <<>>, res |-> <<>>]
+NewObject(c, m) == [on |-> TRUE, cls |-> c, mut |-> m, cache |-> <<>>, res |-> <<>>]     \* decoded from RLP: no cache
+ResolveOn(s, sg) ==
+   LET hit == s.cache # <<>> /\ s.cache[1].signer = sg                                   \* sigCache.signer.Equal(signer)
+       ans == IF hit THEN s.cache[1].from ELSE RecoverUnder(s.mut, sg)
+   IN [s EXCEPT !.res = Append(@, [signer |-> sg, ans |-> ans]),
+                !.cache = IF ~hit /\ ans # "err" THEN <<[signer |-> sg, from |-> ans]>> ELSE @]
+SigCases == IF Alphabet = "sig" THEN { c \in SigCls : c.price = 1 } ELSE {}
+SigNext == /\ \/ ~sig.on /\ \E c \in SigCases, m \in SeqMutations : sig' = NewObject(c, m)
+              \/ sig.on /\ Len(sig.res) < MaxTx /\ \E sg \in Signers : sig' = ResolveOn(sig, sg)
+           /\ UNCHANGED <<nonce, bal, pool, gu, gr, mode, dead, last, hist>>
+\* property layer: "A transaction's sender is the holder of the key that signed exactly its fields for this network" --
+\* whatever was asked of the same object before: every answer is the answer a fresh derivation gives
+CacheTransparent ==
+   \A i \in DOMAIN sig.res : sig.res[i].ans = RecoverUnder(sig.mut, sig.res[i].signer)
+SenderAuthenticSeq ==
+   \A i \in DOMAIN sig.res : (sig.res[i].ans = "same") <=> (sig.res[i].signer = "home" /\ sig.mut = "none")
+
 \* ---------------------------------------------------------------- design layer
 Init == /\ nonce = Nonce0 /\ bal = Bal0 /\ pool = Pool0 /\ gu = 0 /\ gr = 0
         /\ mode \in Modes /\ dead = FALSE
-        /\ last = [kind |-> "none"] /\ hist = <<>>
+        /\ last = [kind |-> "none"] /\ hist = <<>> /\ sig = SigOff
 
 Pre == [nonce |-> nonce, bal |-> bal, pool |-> pool, gu |-> gu, gr |-> gr]
 
@@ -185,7 +226,7 @@ ModelOutcomes(t) == UNION { { [g |-> o.g, failed |-> o.failed, r |-> r] : r \in 
 ApplyWith(t, c, Outs) ==
    /\ ~dead /\ Len(hist) < MaxTx
    /\ hist' = Append(hist, c)
-   /\ UNCHANGED mode
+   /\ UNCHANGED <<mode, sig>>
    /\ IF t.nonce # nonce[t.s] THEN Refuse(t, c, "nonce")                              \* preCheck: ErrNonceTooHigh / ErrNonceTooLow
       ELSE IF bal[t.s] < t.limit * t.price THEN Refuse(t, c, "funds")                 \* buyGas: errInsufficientBalanceForGas
       ELSE IF pool < t.limit THEN Refuse(t, c, "pool")                                \* GasPool.SubGas: ErrGasLimitReached
@@ -196,7 +237,8 @@ ApplyWith(t, c, Outs) ==
 
 ApplyConc(t, c) == ApplyWith(t, c, ModelOutcomes(t))
 
-Next == \E c \in Cls : ApplyConc(Conc(c), c)
+Next == \/ \E c \in Cls : ApplyConc(Conc(c), c)
+        \/ Alphabet = "sig" /\ SigNext
 Spec == Init /\ [][Next]_vars
 
 \* ---------------------------------------------------------------- property layer
@@ -237,23 +279,14 @@ PoolAccounting ==
 RevertedUnchanged ==
    (mode = "miner" /\ last.kind \in {"refused", "error"}) => (nonce = last.pre.nonce /\ bal = last.pre.bal) \/ Cex("RevertedUnchanged")
 
-\* ---------------------------------------------------------------- signature part
-\* A signature binds (key, the six fields, network id).  Recover yields the key only for exactly what was signed, with
-\* the canonical (low-s) encoding; anything else yields another address ("other") or an error.
-Fields == {"nonce", "price", "limit", "to", "value", "data"}
-Mutations == {"none", "nonce", "price", "limit", "to", "value", "data", "data_trunc", "netid_v", "netid_signer", "netid_replay",
-              "highs", "highs_flipv", "flipv", "unprotected", "r"}
-Touches(m) == CASE m \in Fields -> {m} [] m = "data_trunc" -> {"data"} [] m \in {"netid_v", "netid_signer", "unprotected"} -> {"net"}
-                [] m = "netid_replay" -> {"net", "hash"} [] m \in {"highs", "highs_flipv"} -> {"s"} [] m = "flipv" -> {"v"} [] m = "r" -> {"r"} [] OTHER -> {}
-Recover(m) == IF Touches(m) = {} THEN "same" ELSE IF Touches(m) \subseteq {"net", "s"} THEN "err" ELSE "other"
-SenderAuthenticModel == \A m \in Mutations : (m = "none") <=> (Recover(m) = "same")
-ASSUME SenderAuthenticModel
-SigCls == { C(1, "eq", "ample", v, tp[1], tp[2], p) : v \in {"zero", "some"}, tp \in ToPay, p \in Prices }
-
 \* ---------------------------------------------------------------- generation
 Leaf == /\ (GenMode = "leaf" /\ (Len(hist) = MaxTx \/ dead) /\ Len(hist) > 0) =>
               PrintT("@@J " \o ToJson([kind |-> "B", h |-> [kind |-> "apply", mode |-> mode, pool |-> Pool0, txs |-> hist]]))
         /\ (GenMode = "sig" /\ hist = <<>> /\ mode = "miner") =>
               \A c \in SigCls : PrintT("@@J " \o ToJson([kind |-> "B", h |-> [kind |-> "sig", tx |-> c, muts |-> Mutations]]))
-View == <<nonce, bal, pool, gu, gr, mode, dead, last>>
+        \* resolution sequences on one object: every sequence of 1..MaxTx signers
+        /\ (GenMode = "sigseq" /\ sig.on /\ Len(sig.res) > 0 /\ mode = "miner") =>
+              PrintT("@@J " \o ToJson([kind |-> "B", h |-> [kind |-> "sigseq", tx |-> sig.cls, mut |-> sig.mut,
+                                                            seq |-> [i \in DOMAIN sig.res |-> sig.res[i].signer]]]))
+View == <<nonce, bal, pool, gu, gr, mode, dead, last, sig>>
 =============================================================================
